@@ -2541,7 +2541,8 @@ namespace bloch::runtime {
                 if (hasLong) {
                     Value v;
                     v.type = Value::Type::Long;
-                    v.longValue = lInt % rInt;
+                    // x % -1 is 0 for every x; computing it traps for the minimum long.
+                    v.longValue = rInt == -1 ? 0 : lInt % rInt;
                     return v;
                 }
                 return {Value::Type::Int, static_cast<int>(lInt % rInt)};
